@@ -275,7 +275,7 @@ def multi_epoch(ctx):
     """several epochs (max_iter > 1), then incremental training and prediction: every estimator whose fit
     offers max_iter (oracle only; the Lean model covers one training pass)"""
     cov = ctx.cov
-    names = families.ELEM + ["FusionART", "DualVigilanceART", "TopoART", "SimpleARTMAP", "ARTMAP", "SMART", "DeepARTMAP-sup"]
+    names = families.ELEM + ["FusionART", "DualVigilanceART", "TopoART", "SimpleARTMAP", "ARTMAP", "SMART", "DeepARTMAP-sup", "CVIART"]
     for i in range(ctx.scale(57, 1200)):
         r = gen.rng_for(ctx.seed, "C04-epochs", i)
         name = names[i % len(names)]
